@@ -9,6 +9,7 @@ pub mod c03;
 pub mod c04;
 pub mod c05;
 pub mod c06;
+pub mod c09;
 pub mod c10;
 pub mod c11;
 pub mod c12;
@@ -25,7 +26,7 @@ pub struct Check {
 }
 
 pub fn all() -> Vec<Check> {
-    vec![c01::CHECK, c02::CHECK, c03::CHECK, c04::CHECK, c05::CHECK, c06::CHECK, c10::CHECK, c11::CHECK, c12::CHECK, c13::CHECK, c14::CHECK]
+    vec![c01::CHECK, c02::CHECK, c03::CHECK, c04::CHECK, c05::CHECK, c06::CHECK, c09::CHECK, c10::CHECK, c11::CHECK, c12::CHECK, c13::CHECK, c14::CHECK]
 }
 
 /// entry point of worker subprocesses (C08, C18, C20)
